@@ -47,7 +47,7 @@ theorem stage_const (p : ℕ) [Fact p.Prime] (poly result : List Int) (hl : poly
     simp
 
 /-- the degree-1 base case: the single root −c₀·c₁⁻¹ -/
-theorem stage_linear (p : ℕ) [Fact p.Prime] (poly result : List Int) (hg : Good p poly) (hl : poly.length = 2) :
+theorem stage_linear (p : ℕ) [Fact p.Prime] (poly result : List Int) (hg : GoodL p poly) (hl : poly.length = 2) :
     Stage p (red p poly) 1 result
       (result ++ [Int.fmod (-(coefAt poly 0) * modinv (coefAt poly 1) p) p]) := by
   have hpp : p.Prime := Fact.out
@@ -196,8 +196,8 @@ open NTV.PolyG NTV.Hensel
 
 /-- the `while poly_of_mod(poly, val, 2) == 0` loop removes the full power of (X − val) -/
 theorem mod2Loop_spec (val : Int) : ∀ (fuel : Nat) (poly result poly' result' : List Int),
-    Good 2 poly → mod2Loop val fuel poly result = .ok (poly', result') →
-    ∃ k : Nat, result' = result ++ List.replicate k val ∧ Good 2 poly' ∧
+    GoodL 2 poly → mod2Loop val fuel poly result = .ok (poly', result') →
+    ∃ k : Nat, result' = result ++ List.replicate k val ∧ GoodL 2 poly' ∧
       red 2 poly = (X - C (val : ZMod 2)) ^ k * red 2 poly' ∧ (red 2 poly').eval (val : ZMod 2) ≠ 0 := by
   intro fuel
   induction fuel with
@@ -225,7 +225,7 @@ theorem mod2Loop_spec (val : Int) : ∀ (fuel : Nat) (poly result poly' result' 
 theorem zmod2_cases : ∀ r : ZMod 2, r = 0 ∨ r = 1 := by decide
 
 /-- `find_linear_factors_impl_mod2`: the multiplicity of 0, then the multiplicity of 1 -/
-theorem findLinearMod2_spec (poly res : List Int) (hg : Good 2 poly) (h : findLinearMod2 poly = .ok res) :
+theorem findLinearMod2_spec (poly res : List Int) (hg : GoodL 2 poly) (h : findLinearMod2 poly = .ok res) :
     (∀ r ∈ res, 0 ≤ r ∧ r < 2) ∧
       (red 2 poly).roots = Multiset.map (Int.cast : Int → ZMod 2) (res : Multiset Int) := by
   unfold findLinearMod2 at h
@@ -269,7 +269,7 @@ theorem findLinearFactors_spec (p : ℕ) [Fact p.Prime] (f : List Int) (s : NTV.
   have hp0 : (0 : Int) < p := by exact_mod_cast hpp.pos
   obtain ⟨m1, m2, _⟩ := polyMod_reduced f p hp0
   have hred := red_polyMod p hpp.pos f
-  have hg : Good p (polyMod f p) := ⟨m1, m2, by rw [hred]; exact hf⟩
+  have hg : GoodL p (polyMod f p) := ⟨m1, m2, by rw [hred]; exact hf⟩
   unfold findLinearFactors at h
   simp only at h
   split at h
